@@ -17,6 +17,8 @@ structure DState where
   mode : String := ""
   fa   : State := Gen.Failable.init
   c    : CState := Gen.Failable.cinit
+  /-- are the thread-safe `operator new` / malloc overloads on (`turnOnThreadSafeNewDeleteOverloads`) -/
+  ts   : Bool := false
 
 def idsLine (tag : String) (ids : List Nat) : String :=
   if ids.isEmpty then tag ++ " -" else tag ++ " " ++ " ".intercalate (ids.map toString)
@@ -49,6 +51,7 @@ def modelStep (d : DState) (op : List String) (_obs : List (List String)) : DSta
     -- mode fc: the failable allocator is the current malloc allocator for the whole case
     ({ d with mode := m, c := if m == "fc" then { d.c with cur := .failable } else d.c }, [])
   | ["skip"] => (d, [])
+  | ["ts", x] => ({ d with ts := x == "on" }, [])
   | ["failnum", n] =>
     match n.toInt? with
     | some n => ({ d with fa := Gen.Failable.failAllocNumber default d.fa n }, [s!"node {d.fa.nextId}"])
@@ -62,7 +65,6 @@ def modelStep (d : DState) (op : List String) (_obs : List (List String)) : DSta
     | some l =>
       -- the malloc family goes through cpputest_malloc_location (countdown, malloc_count)
       let viaMalloc := fam == "m" || fam == "M"
-      let throws := ["n", "a", "p", "q", "W"].contains fam
       if d.mode == "fc" && viaMalloc then
         let r := genMallocOver { c := d.c, fa := d.fa } f l
         ({ d with c := r.st.c, fa := r.st.fa },
@@ -74,7 +76,11 @@ def modelStep (d : DState) (op : List String) (_obs : List (List String)) : DSta
         let r := Gen.Failable.allocMemory d.fa f l
         let fired := r.2.1.map (·.id)
         let fails := r.2.2
-        let ret := if fails then (if throws then "ret throw" else "ret null") else "ret ok"
+        -- what the caller sees: by the regenerated overload tables of the mode that is on
+        let ret := match outcome d.ts fam fails with
+          | .ok => "ret ok"
+          | .null => "ret null"
+          | .throws => "ret throw"
         ({ d with fa := r.1, c := c' },
          [ret] ++ (if fired.isEmpty then [] else [idsLine "fired" fired]))
     | none => (d, ["bad-op"])
@@ -241,6 +247,8 @@ def specStep (sh : Shadow) (o : Proto.Op) : Except String Shadow := do
   match o.op with
   | ["mode", m] => return { sh with mode := m, installed := m == "fc" }
   | ["skip"] => return sh
+  -- the overload mode changes nothing the property speaks about: every allocation is judged as before
+  | ["ts", _] => return sh
   | ["failnum", n] =>
     let some n := n.toInt? | throw "bad failnum"
     if obsWith "node" o.obs != some [toString (countDesig sh.hist)] then throw "designation did not create exactly one node"
@@ -270,7 +278,9 @@ def specStep (sh : Shadow) (o : Proto.Op) : Except String Shadow := do
       if !gotIds.isEmpty then throw s!"a designation was consumed by an allocation that succeeded"
       return sh'
     | some [r] =>
-      if r != (if ["n", "a", "p", "q", "W"].contains fam then "throw" else "null") then throw s!"unexpected result {r} for family {fam}"
+      -- the throwing new / new[] forms fail by std::bad_alloc, everything else by NULL: in either overload mode
+      let wantR := if ["n", "a", "p", "q", "W"].contains fam then "throw" else "null"
+      if r != wantR then throw s!"unexpected result {r} for family {fam} (a failing allocation of this form has to end in {wantR})"
       if !want then throw s!"allocation at {f}:{l} (global index {allocs e + 1}) is not designated but failed"
       if gotIds != wantIds then throw s!"failing allocation consumed designations {gotIds}, the designated ones are {wantIds}"
       return sh'
